@@ -979,6 +979,7 @@ Lemma rep_wf q : legal_pos q = true -> hmc q < 9223372036854775808 -> fmn q < 46
 Proof.
   intros Hlegal Hh Hf.
   destruct (legal_pos_parts q Hlegal) as (Hl & Hcodes & Hkw & Hkb & Hs & Hcr & Hchk & Hep).
+  assert (Hs01 : stm q = 0 \/ stm q = 1) by lia.
   unfold fpos_wf, rep. cbn [f_board f_side f_cr f_ep f_hmc f_nhm].
   rewrite Hl. cbn [Nat.eqb andb].
   assert (Hcells : forallb cell_ok (brd q) = true).
@@ -997,7 +998,7 @@ Proof.
     apply andb_true_iff in Hep as [Hep _]. apply andb_true_iff in Hep as [Hep Hpawn].
     apply andb_true_iff in Hep as [Hrank Hempty].
     unfold rank_of, piece_at in *. rewrite shiftr3 in *.
-    assert (stm q = 0 \/ stm q = 1) as [Es|Es] by lia; rewrite Es in *.
+    destruct Hs01 as [Es|Es]; rewrite Es in *.
     - change (0 =? WHITE) with true in *. change (fwd (flip 0)) with DS in *. change (0 =? 0) with true.
       cbv iota in *. apply N.eqb_eq in Hrank.
       assert (Hlt : ep q < 64) by lia. destruct (step_ns (ep q) Hlt) as [HS _]. rewrite HS in Hpawn.
@@ -1026,7 +1027,7 @@ Proof.
   destruct (N.eqb_spec (king_sq (brd q) (1 - stm q)) ps) as [E|E]; [|reflexivity].
   unfold piece_at. cbn [brd]. rewrite <- E.
   assert (Hk : at_ (brd q) (king_sq (brd q) (1 - stm q)) = mk_piece (1 - stm q) KING).
-  { apply king_sq_at. assert (stm q = 0 \/ stm q = 1) as [Es|Es] by lia; rewrite Es; assumption. }
+  { apply king_sq_at. destruct Hs01 as [Es|Es]; rewrite Es; assumption. }
   rewrite Hk. unfold mk_piece, flip, KING, PAWN.
   replace (8 * (1 - stm q) + 1 =? 8 * (1 - stm q) + 2) with false by lia. reflexivity.
 Qed.
